@@ -129,6 +129,94 @@ def chains(rnd, n_chains, rounds=5):
     return n, fails
 
 
+def lagging_chains(rnd, n_chains):
+    """A member that missed the last rebalance (its SyncGroup was lost) reports what it owned one generation earlier,
+    with that generation; the others report the latest assignment. Conflicting claims are resolved by generation, so as
+    long as the lagging member only LOST partitions in the rebalance it missed, the previous assignment the assignor is
+    given is exactly the latest one, and clauses (b) and (c) apply to it unchanged. Rounds: equal subscriptions; members
+    join (so that old members lose partitions); then a third round - join / leave / identical - with 1..2 lagging members."""
+    A = assignors()["sticky"]
+    n, fails = 0, []
+    for ci in range(n_chains):
+        parts, subs = random_case(rnd, max_members=6, max_topics=4, max_parts=9)
+        topics = sorted(set(itertools.chain.from_iterable(subs.values())))
+        subs1 = {m: list(topics) for m in sorted(subs)}
+        res1 = run(A, parts, subs1)
+        subs2 = dict(subs1)
+        for i in range(rnd.randint(1, 2)):
+            subs2["j%d" % i] = list(topics)
+        res2 = run(A, parts, subs2, previous={m: tps(v) for m, v in res1.items()}, generation=1)
+        if check_round("added", parts, subs1, res1, subs2, res2):
+            continue                                  # the plain chains report this
+        lag = [m for m in subs1 if set(res2[m]) < set(res1[m])]
+        if not lag:
+            continue
+        lagging = rnd.sample(lag, min(len(lag), rnd.randint(1, 2)))
+        kind = rnd.choice(["added", "added", "identical", "removed"])
+        members = sorted(subs2)
+        if kind == "removed":
+            cand = [m for m in members if m not in lagging]
+            if len(cand) < 1 or len(members) < 2:
+                kind = "added"
+            else:
+                gone = set(rnd.sample(cand, rnd.randint(1, max(1, len(cand) - 1))))
+                subs3 = {m: subs2[m] for m in members if m not in gone}
+        if kind == "added":
+            subs3 = dict(subs2)
+            for i in range(rnd.randint(1, 2)):
+                subs3["k%d" % i] = list(topics)
+        elif kind == "identical":
+            subs3 = dict(subs2)
+        prev = {m: tps(res1[m] if m in lagging else v) for m, v in res2.items()}
+        res3 = run(A, parts, subs3, previous=prev, generation=2, generations={m: 1 for m in lagging})
+        n += 1
+        errs = check_round(kind, parts, subs2, res2, subs3, res3)
+        if errs:
+            fails.append({"kind": kind + " with lagging " + ",".join(lagging), "partitions": parts, "round1": sorted(subs1),
+                          "round2": sorted(subs2), "round3": sorted(subs3),
+                          "latest": {m: sorted(v) for m, v in res2.items()}, "reported_by_lagging": {m: sorted(res1[m]) for m in lagging},
+                          "errors": errs[:3]})
+    return n, fails
+
+
+def lagging_box(max_p, max_m=4):
+    """the same situation, enumerated: 1..2 topics of 2..max_p partitions, 2..max_m members (two naming schemes, so that a
+    joiner sorts before or after the old members), one member joins, then - with each old member that only lost partitions
+    lagging in turn - a member joins (sorting first or last), nothing changes, or a non-lagging member leaves"""
+    A = assignors()["sticky"]
+    n, fails = 0, []
+    for nt in (1, 2):
+        for P in range(2, max_p + 1):
+            parts = {"t%d" % i: P for i in range(nt)}
+            topics = sorted(parts)
+            for m in range(2, max_m + 1):
+                for names in (["c%d" % i for i in range(m)], ["m%d" % (2 * i) for i in range(m)]):
+                    subs1 = {x: list(topics) for x in names}
+                    res1 = run(A, parts, subs1)
+                    for joiner in ("a_first", "m1", "z_last"):
+                        subs2 = dict(subs1)
+                        subs2[joiner] = list(topics)
+                        res2 = run(A, parts, subs2, previous={x: tps(v) for x, v in res1.items()}, generation=1)
+                        for lagm in names:
+                            if not set(res2[lagm]) < set(res1[lagm]):
+                                continue
+                            prev = {x: tps(res1[x] if x == lagm else v) for x, v in res2.items()}
+                            thirds = [("added", dict(subs2, **{j2: list(topics)})) for j2 in ("0_first", "n5", "zz_last")]
+                            thirds.append(("identical", dict(subs2)))
+                            thirds += [("removed", {x: v for x, v in subs2.items() if x != g}) for g in subs2 if g != lagm]
+                            for kind, subs3 in thirds:
+                                res3 = run(A, parts, subs3, previous={x: v for x, v in prev.items() if x in subs3}, generation=2,
+                                           generations={lagm: 1})
+                                n += 1
+                                errs = check_round(kind, parts, subs2, res2, subs3, res3)
+                                if errs and len(fails) < 20:
+                                    fails.append({"kind": kind + " with lagging " + lagm, "partitions": parts, "round1": names,
+                                                  "round2": sorted(subs2), "round3": sorted(subs3),
+                                                  "latest": {x: sorted(v) for x, v in res2.items()},
+                                                  "reported_by_lagging": sorted(res1[lagm]), "errors": errs[:3]})
+    return n, fails
+
+
 def _mixed_reproduce(args):
     """clause (a) is stated for any subscriptions: after every change of a chain with *different* subscriptions (a member
     leaves, a member joins with any subscription) the unchanged group is assigned again and has to get exactly what it
@@ -272,6 +360,40 @@ def main():
           "bound": "%d seeded chains of up to 5 rounds (members leave / join / stay, equal subscriptions, every other chain with "
                    "member-specific topic order; cluster topics nobody subscribes to occur), seed %d" % (nch, a.seed),
           "failures": fails[:60], "failures_total": len(fails), "replay": {"script": REPLAY_CHAINS % a.seed}})
+    mpl = 12 if a.tier == "quick" else 30
+    n, fails = lagging_box(mpl)
+    emit({"name": "sticky-lagging-member-box", "exhaustive": True, "cases": n, "distinct_nontrivial": n,
+          "bound": "1..2 topics x 2..%d partitions each x 2..4 members (two naming schemes) x a joiner sorting first / in the "
+                   "middle / last, then every old member that only lost partitions lagging one generation in turn x a third "
+                   "round (a member joins sorting first / middle / last; identical; each non-lagging member leaves)" % mpl,
+          "failures": fails[:20], "failures_total": len(fails), "replay": {"script": REPLAY_LAGBOX}})
+    nl = 1500 if a.tier == "quick" else 30000
+    n, fails = lagging_chains(random.Random(a.seed), nl)
+    emit({"name": "sticky-chains-with-a-lagging-member", "exhaustive": False, "cases": n, "distinct_nontrivial": n,
+          "bound": "%d seeded chains: equal subscriptions, 1..2 members join, then a third round (join / leave / identical) in "
+                   "which 1..2 old members that only lost partitions in round 2 report their round-1 assignment with generation 1 "
+                   "while the others report round 2 with generation 2 (the claims resolve to the round-2 assignment), seed %d" % (nl, a.seed),
+          "failures": fails[:20], "failures_total": len(fails), "replay": {"script": REPLAY_LAG % a.seed}})
+
+
+REPLAY_LAGBOX = '''
+import sys
+sys.path.insert(0, "/verif")
+from bounded import C15
+n, fails = C15.lagging_box(12)
+VIOLATED = bool(fails)
+DETAIL = "sticky assignor, a member one generation behind, %d third rounds, %d fail; first: %r" % (n, len(fails), fails[:1])
+'''
+
+
+REPLAY_LAG = '''
+import sys, random
+sys.path.insert(0, "/verif")
+from bounded import C15
+n, fails = C15.lagging_chains(random.Random(%d), 1500)
+VIOLATED = bool(fails)
+DETAIL = "sticky assignor, a member one generation behind, %%d third rounds: %%r" %% (n, fails[:1])
+'''
 
 
 REPLAY_MIXED = '''
